@@ -578,6 +578,22 @@ package ps
 //@
 //@ // a request is built from one ephemeral key z: u = z * g, the base h is the hash of the completed commitment, the message
 //@ // (with mPrime appended) is what is encrypted, and the secret handed back to the client is that h, z and message
+//@ // the prover of the request's well-formedness writes only objects it allocates itself (frame; what it computes is not part
+//@ // of any claim)
+//@ func proveBlindingIsWellFormed
+//@   props C08
+//@   requires c != nil && allZr(m) && allZr(r) && len(r) == len(m) && allG1(a) && allG1(b) && len(a) == len(m) && len(b) == len(m) && rcm != nil &&
+//@            g != nil && g0 != nil && h != nil && u != nil && cm != nil && allG1(gs) && len(m) <= len(gs)
+//@   modifies nothing
+//@   loop 0: invariant 0 <= i && n == len(m) && len(α) == n && fresh(α) && forall k int :: { α[k] } 0 <= k && k < i ==> α[k] != nil
+//@   loop 1: invariant 0 <= i && n == len(m) && len(α) == n && len(β) == n && fresh(α) && fresh(β) && !sameArray(α, β) && (forall k int :: { α[k] } 0 <= k && k < n ==> α[k] != nil) &&
+//@                     forall k int :: { β[k] } 0 <= k && k < i ==> β[k] != nil
+//@   loop 2: invariant 0 <= i && n == len(m) && len(α) == n && len(β) == n && len(d) == n && len(f) == n && fresh(d) && fresh(f) && !sameArray(d, f) && s != nil && fresh(s) && γ != nil &&
+//@                     (forall k int :: { α[k] } 0 <= k && k < n ==> α[k] != nil) && (forall k int :: { β[k] } 0 <= k && k < n ==> β[k] != nil) &&
+//@                     forall k int :: { d[k] } { f[k] } 0 <= k && k < i ==> d[k] != nil && f[k] != nil
+//@   loop 3: invariant 0 <= i && n == len(m) && len(α) == n && len(β) == n && len(x) == n && len(y) == n && fresh(x) && fresh(y) && e != nil &&
+//@                     (forall k int :: { α[k] } 0 <= k && k < n ==> α[k] != nil) && (forall k int :: { β[k] } 0 <= k && k < n ==> β[k] != nil)
+//@
 //@ func commit
 //@   props C08
 //@   requires paramsOKp(pp) && rcm != nil && allZr(m) && len(m) <= len(pp.gs)
